@@ -102,7 +102,8 @@ func vHarnessWritersListing() {
 // the corresponding slice of the complete listing (the SDK pagination code is executed).
 func vPage(site string) *query.PageRequest {
 	o, l := vNondetU64(site+".offset"), vNondetU64(site+".limit")
-	vAssume(o <= 3 && l >= 1 && l <= 3)
+	// small page sizes, or the largest ones ("everything from here on": query.MaxLimit = 2^64-1)
+	vAssume(vAll(o <= 3, l >= 1, vAny(l <= 3, l >= ^uint64(0)-3)))
 	return &query.PageRequest{Offset: o, Limit: l, CountTotal: vNondetBool(site + ".countTotal"), Reverse: vNondetBool(site + ".reverse")}
 }
 
@@ -131,14 +132,19 @@ func vHarnessTopicsPaging() {
 		return
 	}
 	vCover("topics page answered")
-	lo, hi := int(pr.Offset), int(pr.Offset+pr.Limit)
+	lo, hi := int(pr.Offset), n
+	overflow := pr.Offset+pr.Limit < pr.Offset // offset+limit does not fit in 64 bits: the page is "all the rest"
+	if !overflow && pr.Offset+pr.Limit < uint64(n) {
+		hi = int(pr.Offset + pr.Limit)
+	}
 	if lo > n {
 		lo = n
 	}
-	if hi > n {
-		hi = n
+	if overflow {
+		vCheck(len(page.TopicNames) == hi-lo, "C13: a page whose offset+limit exceeds 2^64-1 has exactly the remaining items")
+	} else {
+		vCheck(len(page.TopicNames) == hi-lo, "C13: a page has exactly min(limit, remaining) items (no item twice, none skipped)")
 	}
-	vCheck(len(page.TopicNames) == hi-lo, "C13: a page has exactly min(limit, remaining) items (no item twice, none skipped)")
 	if len(page.TopicNames) == hi-lo {
 		for i := lo; i < hi; i++ {
 			j := i
@@ -182,14 +188,19 @@ func vHarnessWritersPaging() {
 		return
 	}
 	vCover("writers page answered")
-	lo, hi := int(pr.Offset), int(pr.Offset+pr.Limit)
+	lo, hi := int(pr.Offset), n
+	overflow := pr.Offset+pr.Limit < pr.Offset // offset+limit does not fit in 64 bits: the page is "all the rest"
+	if !overflow && pr.Offset+pr.Limit < uint64(n) {
+		hi = int(pr.Offset + pr.Limit)
+	}
 	if lo > n {
 		lo = n
 	}
-	if hi > n {
-		hi = n
+	if overflow {
+		vCheck(len(page.WriterAddresses) == hi-lo, "C13: a page whose offset+limit exceeds 2^64-1 has exactly the remaining items")
+	} else {
+		vCheck(len(page.WriterAddresses) == hi-lo, "C13: a page has exactly min(limit, remaining) items (no item twice, none skipped)")
 	}
-	vCheck(len(page.WriterAddresses) == hi-lo, "C13: a page has exactly min(limit, remaining) items (no item twice, none skipped)")
 	if len(page.WriterAddresses) == hi-lo {
 		for i := lo; i < hi; i++ {
 			j := i
